@@ -157,6 +157,10 @@ class World:
             seen_term = "terminate_connection" in c.effects
             if has_status and (("add_connection" in c.effects) != want_add or (seen_term != want_term and not (raised and want_term))):
                 self.oracle.append(("ftp-client-connection-bookkeeping", f"answer {cmd}/{st}: called {c.effects}", cls))
+        if c.can != (c.state == "RUNNING" and c.node_state == "ON"):
+            # the model's `handles`: may act = node ON and the object RUNNING (C13_gen_* tie the guard's text; this is the live value)
+            self.oracle.append(("can-perform-action-differs-from-running-on-an-on-node",
+                                f"{cls}.{meth} on {side}: _can_perform_action()={c.can} while {c.state}/node {c.node_state}", cls))
         if not c.can:
             bad = []
             if c.ret:
